@@ -136,16 +136,25 @@ def pass_case(chk, rng):
     rp = RollPass(label="Oval", roll=Roll(groove=CircularOvalGroove(depth=r * 0.4e-3, r1=6e-3, r2=r * 2e-3),
                                           nominal_radius=160e-3, rotational_frequency=1),
                   gap=(2 + rng.random() * 2) * 1e-3)
-    rp.solve(ip)
-    d, s, e = rp.draught, rp.spread, rp.elongation
-    data = {'kind': 'pass', 'r': r}
-    ok = close(rp.log_draught, math.log(d)) and close(rp.log_spread, math.log(s)) and close(rp.log_elongation, math.log(e))
-    ok = ok and close(rp.rel_draught, d - 1) and close(rp.rel_spread, s - 1)
-    ok = ok and close(rp.abs_draught, rp.out_profile.equivalent_rectangle.height - rp.in_profile.equivalent_rectangle.height)
-    ok = ok and close(rp.strain, math.sqrt(2 / 3 * (rp.log_elongation ** 2 + rp.log_spread ** 2 + rp.log_draught ** 2)))
-    ok = ok and close(rp.rel_elongation, rp.out_profile.length / rp.in_profile.length - 1, 1e-6)
-    if not ok:
-        chk.fail('coefficients', f"draught/spread/elongation forms inconsistent on a solved oval pass (round r={r} mm)", data)
+    ok = True
+    # histories: the same pass object solved, its gap edited, solved again (twice)
+    for step, factor in enumerate((1.0, 0.7, 1.4)):
+        rp.gap = float(rp.gap) * factor
+        rp.solve(ip)
+        d, s, e = rp.draught, rp.spread, rp.elongation
+        data = {'kind': 'pass', 'r': r, 'history': f"solve number {step + 1} of the same pass object (gap {float(rp.gap):.6g})"}
+        ri, ro = rp.in_profile.equivalent_rectangle, rp.out_profile.equivalent_rectangle
+        ok = close(rp.log_draught, math.log(d)) and close(rp.log_spread, math.log(s)) and close(rp.log_elongation, math.log(e))
+        ok = ok and close(rp.rel_draught, d - 1) and close(rp.rel_spread, s - 1)
+        ok = ok and close(rp.abs_draught, ro.height - ri.height)
+        ok = ok and close(d, ro.height / ri.height) and close(s, ro.width / ri.width)
+        ok = ok and close(e, rp.in_profile.cross_section.area / rp.out_profile.cross_section.area, 1e-6)
+        ok = ok and close(rp.strain, math.sqrt(2 / 3 * (rp.log_elongation ** 2 + rp.log_spread ** 2 + rp.log_draught ** 2)))
+        ok = ok and close(rp.rel_elongation, rp.out_profile.length / rp.in_profile.length - 1, 1e-6)
+        if not ok:
+            chk.fail('coefficients', f"draught/spread/elongation do not match the in/out equivalent rectangles and sections on a solved oval pass "
+                     f"(round r={r:.4g} mm, {data['history']})", data)
+            break
     return ok
 
 
